@@ -13,6 +13,7 @@ package main
 import (
 	"cmp"
 	"math"
+	"strconv"
 
 	"github.com/emirpasic/gods/v2/maps/treebidimap"
 	"github.com/emirpasic/gods/v2/maps/treemap"
@@ -31,7 +32,14 @@ type typeSpec[T cmp.Ordered] struct {
 	Probes         []T
 }
 
+// SK: an integer key type WITH a String() method — encoding/json writes such a map key as the number,
+// fmt.Sprint / %v write it through String().  (after seeded change C11-13)
+type SK int
+
+func (k SK) String() string { return "key#" + strconv.Itoa(int(k)) }
+
 var (
+	specSK  = typeSpec[SK]{"SK", []SK{0, -1, 10, 1, 100}, 5, -99, []SK{-2, 7}}
 	specI8  = typeSpec[int8]{"int8", []int8{0, math.MinInt8, math.MaxInt8, -1, 1}, 5, -99, []int8{-127, 126}}
 	specU8  = typeSpec[uint8]{"uint8", []uint8{0, math.MaxUint8, 128, 1, 127}, 5, 99, []uint8{254, 2}}
 	specI64 = typeSpec[int64]{"int64", []int64{0, math.MinInt64, math.MaxInt64, -1, 1 << 53}, 5, -99, []int64{math.MinInt64 + 1, math.MaxInt64 - 1}}
@@ -49,6 +57,8 @@ func typedSysFor(c string, j Job) Sys {
 		return typedSys(c, j, specI64)
 	case "u64":
 		return typedSys(c, j, specU64)
+	case "sk":
+		return typedSys(c, j, specSK)
 	}
 	return nil
 }
